@@ -472,6 +472,12 @@ Definition map_after dec parse (ops : list op) : sstate := snd (spec_run dec par
 
 Definition on_url (u : string) (o : op) : bool := String.eqb (op_url o) u.
 
+(* file content that is not a well-formed entry: it does not decode, or a part does not parse *)
+Definition not_an_entry (dec : string -> option (string * option string))
+           (parse : string -> crlfact) (c : string) : Prop :=
+  dec c = None \/
+  exists b d, dec c = Some (b, d) /\ (parse b = PErr \/ exists dd, d = Some dd /\ parse dd = PErr).
+
 (* ---------- boolean equalities ---------- *)
 Definition res_eqb (a b : res) : bool :=
   match a, b with
